@@ -1,6 +1,6 @@
 (* C10 - reopening preserves everything not modified (store-model part).
    reach bp ba sb h: state after CreateForWrite (superblock version sb) and history h; bp, ba: the error-path
-   patches check-link-before-allocating / attrinfo-check-before-dense-write present or not (theorems hold for all four). *)
+   patches e5d916a (link pre-check) / 8199862 (attribute-info check) present or not (theorems hold for all four). *)
 From HV Require Import Base.Prelude Model.Store Proofs.Store Proofs.StoreOps Proofs.StoreInv Proofs.StoreProps.
 Local Open Scope N_scope.
 
@@ -43,7 +43,7 @@ Theorem C10_failed_call_is_quiet : forall bp ba sb h o,
 Proof. exact C10_failed_call_is_quiet_l. Qed.
 Print Assumptions C10_failed_call_is_quiet.
 
-(* without notes/fixes/check-link-before-allocating the byte-identity clause does not extend to sessions with a
+(* without fix e5d916a, link pre-check the byte-identity clause does not extend to sessions with a
    failing creation: the file grows *)
 Theorem C10_noop_refuted_failed_creation :
   let s := reach false false 2 hist_sess1 in let sess := [OpReopen; OpMkGroup 0 1 false; OpClose] in
